@@ -263,11 +263,12 @@ FEATURES: dict = {
                 ('range', ['SNDLVL_70dB', 'SNDLVL_90dB']), ('range', [60.0, 80.5]),
                 ('range', ['SNDLVL_NORM', 90.0]), ('range', [65.0, 'SNDLVL_GUNFIRE'])],
     'volume': [('const', _single('VOL_NORM')), ('float', _single(1.0)), ('float', _single(0.5)),
-               ('float', _single(0.0)), ('float', _single(1e-05)), ('range', [0.3, 0.7]),
+               ('float', _single(0.0)), ('float', _single(1e-05)), ('float', _single(1.5e-10)), ('float', _single(2.5e+20)),
+               ('range', [1.5e-10, 0.5]), ('range', [0.3, 0.7]),
                ('range', ['VOL_NORM', 0.5]), ('range', [0.5, 'VOL_NORM']), ('range', [1.0, 0.25])],
     'pitch': [('const', _single('PITCH_NORM')), ('float', _single(100.0)), ('const', _single('PITCH_LOW')),
               ('const', _single('PITCH_HIGH')), ('float', _single(95.0)), ('float', _single(255.0)),
-              ('float', _single(1.5)), ('range', [90.0, 110.0]), ('range', ['PITCH_LOW', 'PITCH_HIGH']),
+              ('float', _single(1.5)), ('float', _single(1.25e-10)), ('range', [90.0, 110.0]), ('range', ['PITCH_LOW', 'PITCH_HIGH']),
               ('range', ['PITCH_NORM', 120.5]), ('range', [80.0, 'PITCH_NORM']), ('range', [100.0, 101.0])],
     'force_v2': [('false', False), ('true', True)],
     'stack_start': _stack_values(),
